@@ -767,43 +767,45 @@ func runC17(c *Ctx) {
 		r.Check(len(problems) == 0, "R1", p.FnKey(m), p.Pos(m.Pos()), "one plain blocking send of the command built from the arguments", strings.Join(problems, "; "))
 	}
 	// R2
-	loop := pr.sr.loopFn
-	for _, s := range Selects(loop) {
-		for _, cs := range p.SelectInfo(s).Cases {
-			role := p.chanRole(cs.State.Chan)
-			if role != "field:inputAdds" && role != "field:inputRmvs" {
-				continue
-			}
-			key := p.FnKey(loop) + "#" + strings.TrimPrefix(role, "field:")
-			ok := false
-			why := "the clause body does not apply the command"
-			if cs.Body != nil && cs.RecvVal != nil {
-				for _, in := range cs.Body.Instrs {
-					call, isCall := in.(*ssa.Call)
-					if !isCall {
-						continue
-					}
-					cal := p.Callee(call)
-					if cal == nil || !p.IsProduct(cal) {
-						continue
-					}
-					// arguments come from the received command
-					fromCmd := false
-					for _, a := range call.Call.Args {
-						s := p.Sym(a)
-						if s.V == ssa.Value(cs.RecvVal) || (s.Op == "field" && s.Args[0].V == ssa.Value(cs.RecvVal)) {
-							fromCmd = true
+	// (the control select may sit in the loop function or in a helper it calls)
+	for _, loop := range pr.rt.Funcs {
+		for _, s := range Selects(loop) {
+			for _, cs := range p.SelectInfo(s).Cases {
+				role := p.chanRole(cs.State.Chan)
+				if role != "field:inputAdds" && role != "field:inputRmvs" {
+					continue
+				}
+				key := p.FnKey(loop) + "#" + strings.TrimPrefix(role, "field:")
+				ok := false
+				why := "the clause body does not apply the command"
+				if cs.Body != nil && cs.RecvVal != nil {
+					for _, in := range cs.Body.Instrs {
+						call, isCall := in.(*ssa.Call)
+						if !isCall {
+							continue
+						}
+						cal := p.Callee(call)
+						if cal == nil || !p.IsProduct(cal) {
+							continue
+						}
+						// arguments come from the received command
+						fromCmd := false
+						for _, a := range call.Call.Args {
+							s := p.Sym(a)
+							if s.V == ssa.Value(cs.RecvVal) || (s.Op == "field" && s.Args[0].V == ssa.Value(cs.RecvVal)) {
+								fromCmd = true
+							}
+						}
+						touches := p.mayWriteMapField(cal, "inputs")
+						if fromCmd && touches {
+							ok = true
+						} else if fromCmd {
+							why = "the handler " + cal.Name() + " does not update the input table"
 						}
 					}
-					touches := p.mayWriteMapField(cal, "inputs")
-					if fromCmd && touches {
-						ok = true
-					} else if fromCmd {
-						why = "the handler " + cal.Name() + " does not update the input table"
-					}
 				}
+				r.Check(ok, "R2", key, p.InstrPos(s), "command applied in its clause", why)
 			}
-			r.Check(ok, "R2", key, p.InstrPos(s), "command applied in its clause", why)
 		}
 	}
 	// R3a: removal deletes the entry keyed by the command
